@@ -84,6 +84,15 @@
 (* none of the block's nodes (memo keeps user-cache entries only: LFinish,  *)
 (* CloseBlock), so it invokes every needed function itself, exactly once,   *)
 (* and evaluates to Eval.                                                   *)
+(*                                                                         *)
+(* "A pipeline constructed with lazy=True" is a statement about the         *)
+(* pipeline OBJECT, and objects are also derived from one another           *)
+(* (Pipeline.join, `|`, .copy): a derived pipeline is a copy of its         *)
+(* receiver with the functions it collects, so it is lazy exactly if the    *)
+(* receiver is, unless the derivation states the flag (assembly section:    *)
+(* AsmFlag, PipelineIsLazy).  Everything above is required of EVERY         *)
+(* pipeline whose assembly yields lazy, whatever it was put together from;  *)
+(* LBegin is guarded by PipelineIsLazy(d) and is the only call on it.       *)
 (***************************************************************************)
 EXTENDS PipelineCall
 
